@@ -133,6 +133,7 @@ class Engine:
                 return False
             self.prefix = self.work.pop(); self.pos = 0
             self.solver.reset()
+            self.approx = False      # set by contracts that over-approximate a value (e.g. float(str) -> free real)
             self.paths += 1
             if self.paths > self.max_paths: raise RuntimeError('path budget')
             try:
